@@ -2858,9 +2858,21 @@ def transform_compressible(items, constants, labels):
             new_items.append(item)
             continue
 
+        # an immediate that refers to a label can still change while later items
+        # shrink; only pc-relative offsets may be judged now, because they can
+        # only move towards zero and therefore stay inside the compressed range
+        label_dependent = False
+        if hasattr(item, 'imm'):
+            try:
+                item.imm.eval(position, constants, item.line)
+            except AssemblerError:
+                label_dependent = True
+
         # check if any set of criteria is all true for this item
         compressed = None
         for name, preds in criteria.items():
+            if label_dependent and name not in ['c.j', 'c.jal', 'c.beqz', 'c.bnez']:
+                continue
             if all(pred(item, position, env) for pred in preds):
                 compressed = name
                 break
